@@ -10,7 +10,8 @@ META = dict(
               "strict framing parse of the bytes on the wire",
     text="One keep-alive connection between a real ioflo Patron and a real ioflo Valet serving a WSGI app. The client queues N "
          "requests (N = 1, 2, 3; all GET or all POST with a body); request i asks for response kind k_i in {fixed: Content-Length "
-         "and one body piece, stream: a generator without a length yielding several pieces (one of them empty), empty: no length "
+         "and one body piece, stream: a generator without a length yielding three pieces with an empty piece before the first, between and after the "
+         "last (fixed responses at odd positions also yield an empty piece first), empty: no length "
          "and an empty iterable}; all 3 + 9 + 27 kind sequences, plus 18 sequences with the "
          "body-less statuses 204 / 304 answered without Content-Length (alone and every pair with any kind, GET; thorough also "
          "with POST and (k, 204|304, k) triples), plus keep-alive sequences that switch between HEAD and GET / POST (HEAD; "
@@ -34,7 +35,7 @@ META = dict(
          "within a fixed number of service calls (a client waiting for a close to finish a response is a violation).",
     note="Socket doubles replace loopback sockets so that the harness owns the schedule. Short reads are limited to one cut "
          "point per recv (they are re-assembled within the pass; every cut point of a message is C29's subject). Server-side partial sends, connection loss and timeouts are "
-         "not explored here (C24-C28); the only partial sends are the client's two-piece requests. N <= 3, deviation bound as stated; the liveness window is 14 service calls per request.",
+         "not explored here (C24-C28); the only partial sends are the client's two-piece requests. N <= 3, deviation bound as stated; the liveness window is 18 service calls per request.",
 )
 from mc import core, net, httpharness as hh
 
@@ -61,7 +62,7 @@ def bound_for(mode, method, n):
     if n == 1:
         return 4
     return 3
-STEPS_PER_REQ = 14
+STEPS_PER_REQ = 18
 TAIL = 4
 
 
@@ -88,15 +89,19 @@ def make_app(calls):
         if kind == "fixed":
             body = expected_body(kind, method, tag, reqbody)
             start("200 OK", [("Content-Type", "text/plain"), ("Date", DATE), ("Content-Length", str(len(body)))])
+            if int(tag[1:]) % 2:          # control: a fixed-length response whose iterator is not ready at first
+                return iter([b"", body])
             return [body]
         if kind == "stream":
             start("200 OK", [("Content-Type", "text/plain"), ("Date", DATE)])
 
             def gen():
+                yield b""           # "not ready yet" before the first piece: allowed, writes nothing
                 yield b"S:"
-                yield b""           # "not ready yet": allowed, writes nothing
+                yield b""           # ... between pieces
                 yield tag
                 yield b":" + method + b":" + reqbody
+                yield b""           # ... and after the last piece
             return gen()
         if kind in BODILESS:
             start(BODILESS[kind], [("Date", DATE)])
@@ -479,7 +484,8 @@ def run():
         "socket doubles (mc/net.py) instead of loopback sockets; a recv returns everything waiting or 1 byte; sends are accepted "
         "whole except the scheduled two-piece requests (client) and two-piece chunks (server)",
         "'empty' is a 200 response whose WSGI iterable is empty and which declares no length; 'stream' is a generator without a "
-        "length that also yields one empty piece (allowed by the Responder: empty pieces are not written)",
+        "length that also yields empty pieces - first, in the middle and last (allowed by the Responder: empty pieces are not "
+        "written); a fixed response at an odd position yields an empty piece before its body",
         "'matched to the request that caused it' is read as: the queued response's request entry carries the rid / path of the "
         "i-th request and its body is what the app produced for that request, when delivered and still at the end of the run "
         "(responses are read from Patron.responses after all N arrived, as Patron.respond() users may do)",
